@@ -105,6 +105,7 @@ class VecInterp {
   uint64_t w_req0, w_mal0, w_ev0, w_dreq, w_dmal, w_dev;
   bool w_threw;
   uint32_t heap_blocks_seen;
+  bool keep_moved_from;
   FILE *transcript;
   int portability;  // C16: 1 = skip ops only C++20 offers, 2 = also skip everything not offered by every configuration
 
@@ -118,7 +119,7 @@ class VecInterp {
     fprintf(transcript, "\n");
   }
 
-  explicit VecInterp(const char *name) : cfgname(name), relocate_enabled(false), within_n(false), transcript(0), portability(0) {
+  explicit VecInterp(const char *name) : cfgname(name), relocate_enabled(false), within_n(false), keep_moved_from(false), transcript(0), portability(0) {
     for (int i = 0; i < K; ++i) {
       s[i].c = 0;
       s[i].mem = 0;
@@ -224,7 +225,12 @@ class VecInterp {
         violation(P01, "%s: iteration ends after %zu of %zu elements", what, k, m.size());
         return;
       }
-      int v = val_of(*it);
+      int v;
+      {
+        // an element that cannot be read (moved-from, not alive) is also a wrong element of the sequence
+        ExtraTag tg(P01);
+        v = val_of(*it);
+      }
       if (tainted()) return;
       if (v != m[k]) {
         violation(P01, "%s: element %zu is %d, std::vector has %d", what, k, v, m[k]);
@@ -246,15 +252,15 @@ class VecInterp {
     const E *d = c.data();
     bool inl = inside(i, d);
     if (size > cap) {
-      violation(P07, "%s: size() %ld exceeds capacity() %ld", what, size, cap);
+      violation(P07 | PSOFT, "%s: size() %ld exceeds capacity() %ld", what, size, cap);
       return;
     }
     if (static_cast<unsigned long long>(cap) > static_cast<unsigned long long>(c.max_size()))
-      violation(P07, "%s: capacity() %ld exceeds max_size()", what, cap);
+      violation(P07 | PSOFT, "%s: capacity() %ld exceeds max_size()", what, cap);
     bool cap_trusted = true;
     if (cap > 0 && !inl) {
       if (T::is_fcv) {
-        violation(P05, "%s: FixedCapacityVector data() lies outside the object", what);
+        violation(P05 | PSOFT, "%s: FixedCapacityVector data() lies outside the object", what);
         return;
       }
       if (T::ledger) {
@@ -306,16 +312,16 @@ class VecInterp {
     const E *d = c.data();
     bool inl = inside(i, d);
     if (cls != K_SHRINK && cls != K_MOVEDST && cls != K_MOVESRC && cls != K_SWAP && cap < b.cap)
-      violation(P07, "%s: capacity() decreased from %ld to %ld", what, b.cap, cap);
-    if (cls == K_RESERVE && cap < req) violation(P07 | P18, "%s: capacity() %ld < reserved %ld", what, cap, req);
+      violation(P07 | PSOFT, "%s: capacity() decreased from %ld to %ld", what, b.cap, cap);
+    if (cls == K_RESERVE && cap < req) violation(P07 | P18 | PSOFT, "%s: capacity() %ld < reserved %ld", what, cap, req);
     if ((cls == K_GROW || cls == K_ERASE || cls == K_RESERVE) && std::max(size, req) <= b.cap && !w_threw) {
       if (d != b.data) {
-        violation(P07, "%s: result fits capacity %ld but data() changed (needless reallocation)", what, b.cap);
+        violation(P07 | PSOFT, "%s: result fits capacity %ld but data() changed (needless reallocation)", what, b.cap);
       } else if (ET<E>::tracked) {
         long lim = std::min<long>(std::min<long>(keep, size), static_cast<long>(b.ids.size()));
         for (long k = 0; k < lim; ++k)
           if (ET<E>::id(d[k]) != b.ids[k]) {
-            violation(P07, "%s: element %ld before the insertion/erasure point was replaced (reference invalidated)", what, k);
+            violation(P07 | PSOFT, "%s: element %ld before the insertion/erasure point was replaced (reference invalidated)", what, k);
             break;
           }
       }
@@ -326,16 +332,16 @@ class VecInterp {
     if (d != b.data && !inl && !b.inl && b.cap > 0 && cap > 0 && (cls == K_GROW || cls == K_RESERVE || cls == K_SHRINK)) feature(F_REALLOC);
     // ---- C05
     if (T::kind == 2) {
-      if (d != x.fcv_begin) violation(P05, "%s: FixedCapacityVector begin() changed during the object's life", what);
-      if (w_dmal != 0 && !w_threw) violation(P05, "%s: %lu dynamic allocation(s) during an operation on a FixedCapacityVector", what, (unsigned long)w_dmal);
+      if (d != x.fcv_begin) violation(P05 | PSOFT, "%s: FixedCapacityVector begin() changed during the object's life", what);
+      if (w_dmal != 0 && !w_threw) violation(P05 | PSOFT, "%s: %lu dynamic allocation(s) during an operation on a FixedCapacityVector", what, (unsigned long)w_dmal);
     } else if (T::kind == 1) {
       if (req > T::N || size > T::N) x.flag = false;
       if (cls == K_SHRINK && size <= T::N) x.flag = true;
       if (x.flag) {
         if (cap != T::N)
-          violation(P05, "%s: SmallVector within N reports capacity() %ld instead of N=%ld", what, cap, T::N);
+          violation(P05 | PSOFT, "%s: SmallVector within N reports capacity() %ld instead of N=%ld", what, cap, T::N);
         else if (!inl)
-          violation(P05, "%s: SmallVector within N keeps its elements outside the object", what);
+          violation(P05 | PSOFT, "%s: SmallVector within N keeps its elements outside the object", what);
       }
     }
   }
@@ -344,9 +350,9 @@ class VecInterp {
     if (T::kind != 1) return;
     if (all_flagged_before && all_flagged_after && !w_threw) {
       if (w_dreq != 0)
-        violation(P05, "%s: %lu allocator request(s) although no operand ever exceeded N", what, (unsigned long)w_dreq);
+        violation(P05 | PSOFT, "%s: %lu allocator request(s) although no operand ever exceeded N", what, (unsigned long)w_dreq);
       else if (w_dmal != 0 && mstats().installed)
-        violation(P05, "%s: %lu malloc/new call(s) although no operand ever exceeded N", what, (unsigned long)w_dmal);
+        violation(P05 | PSOFT, "%s: %lu malloc/new call(s) although no operand ever exceeded N", what, (unsigned long)w_dmal);
     }
   }
 
@@ -354,9 +360,9 @@ class VecInterp {
   void post1(int i, Cls cls, long keep, long req, const char *what) {
     if (tainted()) return;
     bool fb = snap[i].flag;
-    check_storage(i, what);
+    compare_model(i, what);  // the public API first: what a user would see
     if (tainted()) return;
-    compare_model(i, what);
+    check_storage(i, what);
     if (tainted()) return;
     check_contract(i, cls, keep, req, what);
     check_no_alloc(fb, s[i].flag, what);
